@@ -293,6 +293,10 @@ def timeslot_rules(ctx, repo, types):
                 for o in t.attrs.get("observers", []):
                     m = I_.repo.find_method(o.cls, "voice_transmission_ended")
                     I_.call(m, [o, None, []], {}, o.cls)
+                # ... and is idle afterwards (the transmission ran out) or already inside the next transmission (the end was forced by
+                # a new start: a voice header interrupting a data transmission) — the count restarts in either case
+                tt_ = I_.repo.enum_members(I_.repo.cls("transmission.transmission_types", "TransmissionTypes"))
+                t.attrs["type"] = tt_["Idle"] if I_.st.choose("after the end: idle") else (tt_["VoiceTransmission"] if I_.st.choose("after the end: voice started") else tt_["DataTransmission"])
             return a[1]
 
         I.summaries[repo.find_method(tci, "process_packet").qualname] = pp_stub
